@@ -408,6 +408,16 @@ pub async fn slow_rounds_scenario(delay: Duration, horizon: u64, out: &mut ScOut
     if own_hb + 1 < min_rounds {
         out.findings.push(Finding::new(&["C19"], "server.rounds_stalled", format!("{what}: own heartbeat is {own_hb} after {horizon} s, at least {} rounds must have begun", min_rounds.saturating_sub(1))));
     }
+    // a shutdown requested WHILE every round still overruns its interval (a tick is always already due): the command
+    // branch of the loop is ready together with the tick branch at every iteration; a fair choice takes it with
+    // probability >= 1/3 each time, so 100 iterations (each at most 2 x delay long) miss it with probability < 1e-17
+    let _ = handle.initiate_shutdown();
+    out.c.inc("shutdown_requests");
+    let patience = delay * 200;
+    match tokio::time::timeout(patience, handle.termination_watcher()).await {
+        Ok(_) => out.c.inc("shutdowns_completed_under_a_slow_transport"),
+        Err(_) => out.findings.push(Finding::new(&["C19"], "server.shutdown_starved", format!("{what}: a shutdown requested while the rounds overrun their interval did not complete within {patience:?} of virtual time (about 100 rounds): the command branch of the loop is never served"))),
+    }
     shared.lock().unwrap().mode = 0;
     match tokio::time::timeout(Duration::from_secs(60), handle.shutdown()).await {
         Ok(Ok(())) => out.c.inc("clean_shutdowns"),
